@@ -47,7 +47,11 @@ def generate(rng, tier):
           ("blank-lines", ["E", "E", ("L", ""), "E", ("L", "")]), ("text-then-blank", ["E", "E", ("L", "ok"), "E", ("L", " ")]), ("blank-then-silent", ["E", "E", ("L", ""), "E", "E"]),
           ("open-fault", ["F"]), ("write1-fault", ["E", "F"]), ("read1-fault", ["E", "E", "F"]), ("write2-fault", ["E", "E", "E", "F"]), ("read2-fault", ["E", "E", "E", "E", "F"]),
           ("nick-timeout", ["E", "E", ("L", S.GOOD_VERSION), "E", ("L", "CU,OK"), "E"] + ["E"] * 27),
-          ("ebb-second-probe-old", ["E", "E", ("L", "garbage"), "E", ("L", "EBBv13_and_above EB Firmware Version 2.8.1")])]
+          ("ebb-second-probe-old", ["E", "E", ("L", "garbage"), "E", ("L", "EBBv13_and_above EB Firmware Version 2.8.1")]),
+          # another maker's controller that answers the probe with a recent-looking version text of its own: not an EBB
+          ("other-controller", ["E", "E", ("L", "GRBL-HAL Controller Firmware Version 4.1.0"), "E", ("L", "GRBL-HAL Controller Firmware Version 4.1.0"), "E", ("L", "CU,OK"), "E", ("L", "QT,Bot")]),
+          ("other-controller", ["E", "E", ("L", "Marlin Firmware Version 3.0.2"), "E", ("L", "ok"), "E", ("L", "CU,OK"), "E", ("L", "QT,Bot")]),
+          ("other-controller", ["E", "E", ("L", "hello"), "E", ("L", "Smoothie Firmware Version 12.0.0"), "E", ("L", "CU,OK"), "E", ("L", "QT,Bot")])]
     m = 60 if tier == "quick" else 4000
     for _ in range(m):
         v = _ver(rng)
@@ -61,7 +65,8 @@ def generate(rng, tier):
     hsk = [("good", S.connect_script()), ("old", ["E", "E", ("L", "EBBv13_and_above EB Firmware Version 2.8.1")]),
            ("old-multidigit", ["E", "E", ("L", "EBBv13_and_above EB Firmware Version 2.10.12")]), ("old-late", ["E", "E", "E", "E", ("L", "EBBv13_and_above EB Firmware Version 3.0.1")]),
            ("old-after-junk", ["E", "E", ("L", "!8 Err: Unknown command"), "E", ("L", "EBBv13_and_above EB Firmware Version 2.9.9")]),
-           ("not-ebb", ["E", "E", ("L", "hello"), "E", ("L", "world")]), ("silent", ["E", "E", "E", "E", "E"]), ("open-fails", ["F"]),
+           ("not-ebb", ["E", "E", ("L", "hello"), "E", ("L", "world")]),
+           ("other-controller", ["E", "E", ("L", "GRBL-HAL Controller Firmware Version 4.1.0"), "E", ("L", "Controller Firmware Version 4.1.0")]), ("silent", ["E", "E", "E", "E", "E"]), ("open-fails", ["F"]),
            ("blank-lines", ["E", "E", ("L", ""), "E", ("L", " ")])]
     reps = 1 if tier == "quick" else 15
     for _ in range(reps):
